@@ -44,6 +44,7 @@ VIS_H = """#ifndef VIS_H
 #define BEGIN_PUBLISH
 #define END_PUBLISH
 #endif
+template<class T> struct vg_traits { typedef T value_type; };
 #endif
 """
 
@@ -247,6 +248,74 @@ class VisGen:
         return dict(name=name, q=c.qual + name, kind=(t["kind"] if form == "plain" else "aliasv"), access=access,
                     involved=bool(t.get("involved")), igt=bool(t.get("igt")), tmpl=False, alias=True, via=via,
                     privt=bool(t.get("privt") or t["access"] is not None), nested=[])
+
+    def gen_inst_template(self, c, L, ind, vtypes):
+        """A class template that IS instantiated through a global typedef (so its published members are scanned),
+        with methods whose must-not gates depend on the template argument: `T &&` parameters, T being a type
+        named by ignoreinvolved, plus the usual section gates.  Published plain members are unspecified
+        ("picks up most template instantiations"), never must."""
+        rng = self.rng
+        cands = [t for t in vtypes if t["kind"] == "class" and t["access"] is None and not t.get("tmpl")
+                 and not t.get("alias")]
+        pref = [t for t in cands if t.get("involved")]
+        arg = None
+        if cands and rng.random() < 0.75:
+            arg = rng.choice(pref) if pref and rng.random() < 0.5 else rng.choice(cands)
+        argq = arg["q"] if arg else rng.choice(["int", "float"])
+        inv = bool(arg and arg.get("involved"))
+        argrefs = [arg["name"]] if arg else []
+        self._ownvis = 0
+        cname = self.nm(self.tag_for(c, 0, ()), "c")
+        T = f"T{self.n}"
+        self.add(cname, self.tag_for(c, 0, ()), "class", c, 0, False, (), argrefs, False, "inst-template",
+                 region=bool(self.region_open), q=c.qual + cname, member_vis=[0], ownvis=0, tmpl_self=True, inst=True,
+                 igt_target=False)
+        inner = c.sub(top=(c.top or cname), owner=cname, qual=cname + "::", cctx="inst-template", depth=1)
+        L.append(f"{ind}template<class {T}> class {cname} {{")
+        st = St(3, False)
+        used_traits = False
+        for _ in range(rng.randint(3, 7)):
+            if rng.random() < 0.35:
+                self.label(st, L, ind)
+                continue
+            vis_o, amb = st.own()
+            self._ownvis = vis_o
+            form = rng.choice(["plain", "tref", "tref", "rv", "rv", "rv", "rvt"])
+            excl = set()
+            refs = []
+            if form == "plain":
+                params = ["int"]
+                ret = "int"
+            elif form == "tref":
+                params = [rng.choice([f"const {T} &", f"{T} *", f"{T} &"])]
+                ret = rng.choice(["void", f"{T} *"])
+                refs = argrefs
+                if inv:
+                    excl.add("ign_involved")
+            else:
+                excl.add("rvref")
+                refs = argrefs
+                if inv:
+                    excl.add("ign_involved")
+                if form == "rvt":
+                    used_traits = True
+                    params = [f"typename vg_traits<{T}>::value_type &&"]
+                else:
+                    params = rng.choice([[f"{T} &&"], ["int", f"const {T} &&"], [f"{T} &&", f"{T} *"]])
+                ret = "void"
+            tag = self.tag_for(inner, vis_o, excl)
+            name = self.nm(tag, "m")
+            self._sig_alias = False
+            self.add(name, tag, "method", inner, vis_o, amb, excl, refs, False, "inst-template")
+            ps = self.fmt_params(tag, params, name, inner, vis_o, amb, excl, "inst-template", defaults=False, refs=refs)
+            L.append(f"{ind}  {ret} {name}({ps});")
+        L.append(f"{ind}}};")
+        self._ownvis = 0
+        tname = self.nm(self.tag_for(c, 0, ()), "t")
+        self.add(tname, self.tag_for(c, 0, ()), "typedef", c, 0, False, (), [cname] + argrefs, False, "inst-template")
+        L.append(f"{ind}typedef {cname}<{argq}> {tname};")
+        self.features.add("instantiated-template")
+        return used_traits
 
     def redefine_macro(self, c, L):
         """#define a macro again that an earlier part of this file or an (transitively) included file defined:
@@ -636,6 +705,8 @@ class VisGen:
         ctx = c.cctx or ("ns" if c.ns else "")
         kinds = ["func"] * 5 + ["var"] * 3 + ["enum"] * 3 + ["macro"] * 2 + ["class"] * 6 + ["typedef"] + \
                 ["tmplc", "tmplf", "deleted", "rvref", "sfunc", "fwd", "inlinef"] + ["alias"] * 2 + ["redef"] * 2
+        if not in_ns and not c.cctx:
+            kinds += ["itmplc"] * 3
         if self.p["nfile"]:
             kinds += ["ign_type_class", "involved_class"]
             if any(t.get("involved") or t.get("igt") for t in vtypes):
@@ -746,6 +817,8 @@ class VisGen:
                 new.append(self.make_alias(c, L, ind, t, vis, amb, ctx, None))
         elif k == "redef":
             self.redefine_macro(c, L)
+        elif k == "itmplc":
+            self.gen_inst_template(c, L, ind, vtypes)
         elif k == "fwd":
             name = self.nm("unspec", "fw")
             self.add(name, "unspec", "class", c, vis, amb, (), (), False, ctx, judge=False, member_vis=[], region=False)
